@@ -6,6 +6,27 @@ import os
 ROOT = os.path.dirname(os.path.dirname(os.path.abspath(__file__)))
 
 CHECKS = {
+    'C13': ('model_checking', '§7 C13',
+            'KevoRepl (primary log with same-sequence batches, four senders shipping whole batches, bounded stream with loss/dup/reorder, '
+            'replica pipeline Deliver/ApplyBatch/Ack/Nack/Resend, disconnect/reconnect/restart) is model-checked: AppliedIsPrefix, '
+            'NoSplitBatch, ExpectedFollowsApplied, ReportedMonotone, ReportedLeApplied. TLC-generated delivery schedules are replayed '
+            'deterministically into the real WALBatchApplier through the real entry encoding with the predicted applied sequence / gap '
+            'outcome as oracle; system traces of a real primary+replica pair (state sampled atomically) are decided by TLC (TRACE_Repl).',
+            'bounded model; Replica.processEntries only through system scenarios; open finding KF_C13_restart_from_one',
+            'TLC MC + deterministic replay of generated delivery schedules + TLC trace validation of system runs'),
+    'C14': ('model_checking', '§7 C14',
+            'KevoRepl liveness (Converges under LiveSpec, no state constraint; also beside a stalled second replica) is model-checked; system '
+            'scenarios drawn from the specification (singles, deletes, transactions, rotation, flush; join before/during/after; restart) run '
+            'a real primary and replica over loopback and compare both engines until equal within the deadline, then 3 more samples.',
+            'scenario space sampled (exploration of programs); deadlines are fixed multiples of measured baselines; open finding KF_C13_restart_from_one',
+            'TLC liveness MC + system scenarios generated from the specification'),
+    'C15': ('exploration', '§7 C15',
+            'KevoRepl: PWriteNeverWaits (ENABLED independent of stream/stall/session), PWriteReturns and StalledIsDropped under primary-only '
+            'fairness are model-checked; fault scenarios attach a misbehaving replication client (never reads, never acknowledges, cuts TCP, '
+            'slow apply) to a real primary with 0-1 healthy replicas; every Invoke of Put/Get/Commit needs a Return before a deadline that is a '
+            'multiple of the baseline measured in the same run; traces decided by TLC (TRACE_Repl). Fault kinds/points are sampled.',
+            'timing-based; two open findings (stalled reader blocks the primary; stalled reader is not dropped) whose witnesses reproduce each run',
+            'TLC MC + fault scenarios with in-run baselines + TLC trace validation'),
     'C09': ('model_checking', '§7 C09',
             'KevoWal models writer fragmentation and reader reassembly at record grain over 16 named shape classes (record-size boundaries, '
             'fragmented keys, batches below/above the buffer, rotation, reuse); TLC checks ReplayIsAppended, FromIsSuffix, SeqUp, NextMatchesLog. '
